@@ -366,6 +366,16 @@ class _Formatter:
 
             self._out.append(self._render_token(tok))
             self._update_state(tok)
+            # Subprocess macro (``bash -c ! raw   text``): everything after
+            # a free-standing ``!`` is one raw argument — keep it verbatim
+            # like an alias-macro body.
+            if (
+                tok.type == ERRORTOKEN
+                and tok.string == "!"
+                and self._subproc_line
+                and self._paren_depth == 0
+            ):
+                self._macro_alias_line = True
             # Function-macro entry: ``name!(`` with no gap turns the
             # body into raw arguments. Recognised once we've seen the
             # ``!(`` opener (so paren depth has just been pushed).
